@@ -964,7 +964,14 @@ func TestLedger(t *testing.T) {
 	for _, ci := range p.Cases() {
 		r := p.RNG("c15", ci)
 		retries := 1 + r.Intn(3)
-		w := newWorld(1<<30, 1<<28, retries)
+		// a third of the cases run with a per-peer allowance of a few blocks, so that transactions wait
+		// for memory while earlier messages are held, sent or failed
+		tight := p.RNG("c15tight", ci).Intn(3) == 0
+		perPeer := uint64(1 << 28)
+		if tight {
+			perPeer = uint64(4200 + p.RNG("c15tight2", ci).Intn(12000))
+		}
+		w := newWorld(1<<30, perPeer, retries)
 		npeers := 1 + r.Intn(2)
 		peers := make([]peer.ID, npeers)
 		for i := range peers {
@@ -1028,7 +1035,7 @@ func TestLedger(t *testing.T) {
 					switch x := r.Intn(10); {
 					case x < 6:
 						sz := 1 + r.Intn(4000)
-						if r.Intn(15) == 0 {
+						if r.Intn(15) == 0 && !tight {
 							sz = 300*1024 + r.Intn(300*1024)
 							nBig++
 						}
@@ -1047,7 +1054,7 @@ func TestLedger(t *testing.T) {
 				plans = append(plans, pl)
 			}
 		}
-		rep.Journal("case %d peers=%d requests=%d fault=%s failAt=%d hold=%v retries=%d ext=%v", ci, npeers, len(plans), fault, failAt, hold, retries, hasExt)
+		rep.Journal("case %d peers=%d requests=%d fault=%s failAt=%d hold=%v retries=%d ext=%v perPeer=%d", ci, npeers, len(plans), fault, failAt, hold, retries, hasExt, perPeer)
 		var wg sync.WaitGroup
 		var opsDone int64
 		lastOp := make([]int64, npeers) // logical clock of the last completed operation per peer
@@ -1088,7 +1095,65 @@ func TestLedger(t *testing.T) {
 				}
 			}(pl)
 		}
-		wg.Wait()
+		var stopRel chan struct{}
+		if tight && hold {
+			// with a small allowance the producers wait for memory that only completed sends give back:
+			// lift the hold once a reservation is actually waiting (otherwise: when the producers are done)
+			stopRel = make(chan struct{})
+			stop := stopRel
+			go func() {
+				for {
+					select {
+					case <-stop:
+						return
+					default:
+					}
+					if atomic.LoadInt64(&w.led.pendingFwd) > 0 {
+						time.Sleep(300 * time.Microsecond)
+						w.net.releaseAll()
+						return
+					}
+					time.Sleep(100 * time.Microsecond)
+				}
+			}()
+		}
+		// the producers normally finish; if one of them is still waiting for memory while everything else is
+		// quiescent (nothing in flight, nothing queued, held sends released) it will wait forever
+		prodDone := make(chan struct{})
+		go func() { wg.Wait(); close(prodDone) }()
+		stuck := false
+		for waiting := true; waiting; {
+			select {
+			case <-prodDone:
+				waiting = false
+			case <-time.After(200 * time.Millisecond):
+				if atomic.LoadInt64(&w.net.blocked) == 0 && atomic.LoadInt64(&w.led.pendingFwd) > 0 {
+					if ok, _ := w.q.Sustained(2 * time.Second); ok && atomic.LoadInt64(&w.led.pendingFwd) > 0 {
+						select {
+						case <-prodDone:
+						default:
+							stuck = true
+						}
+						waiting = false
+					}
+				}
+			}
+		}
+		if stopRel != nil {
+			close(stopRel)
+		}
+		if stuck {
+			rep.Eval()
+			var held []string
+			for i, pp := range peers {
+				held = append(held, fmt.Sprintf("p%d: allocator reports %d bytes, ledger reserved-released %d", i, w.led.real.AllocatedForPeer(pp), w.led.held(pp)))
+			}
+			rep.Violation(ci, "C15/reservation-waits-forever-on-idle-queue", fmt.Sprintf("a response transaction is waiting for memory although nothing is queued or in flight for the peer any more (%v): the bytes it waits for are accounted to the idle peer", held),
+				map[string]any{"case": ci, "fault": fault, "fail_at_send": failAt, "retries": retries, "first_send_held": hold, "per_peer_allowance": perPeer, "event_log_tail": w.log.Tail(60)})
+			w.close()
+			<-prodDone
+			continue
+		}
 		if fault == "disconnect" {
 			w.pm.Disconnected(peers[r.Intn(npeers)])
 		}
@@ -1103,7 +1168,7 @@ func TestLedger(t *testing.T) {
 			for _, pl := range plans {
 				pls = append(pls, fmt.Sprintf("peer p%d request %s ops %v", pl.peer, pl.id.String()[:8], pl.ops))
 			}
-			return map[string]any{"case": ci, "fault": fault, "fail_at_send": failAt, "retries": retries, "first_send_held": hold, "plans": pls,
+			return map[string]any{"case": ci, "fault": fault, "fail_at_send": failAt, "retries": retries, "first_send_held": hold, "per_peer_allowance": perPeer, "plans": pls,
 				"has_extension_data": hasExt, "event_log_tail": w.log.Tail(60)}
 		}
 		if inc != "" {
